@@ -3,10 +3,22 @@
 import json
 MC="model_checking"; EX="exploration"; FE="fault_enumeration"
 checks = {
+ "C01": dict(level=EX, design="DESIGN.md §4 C01",
+   text="bounded-exhaustive round trips Encoder->Decoder in both directions and all 8 encoder modes: every byte string <=4/5 over a 16-symbol alphabet + threshold family around 4096, every mailbox name <=4/5 runes, 239 flags/attributes incl. malformed, boundary numbers, every number set of <=3 insertions, every list tree <=5/6 nodes + depth chains around the cap; oracle: value equality modulo documented canonicalisations, exact consumption (independent scanner), refusals write nothing, byte legality for the mode",
+   note="independent wire scanner (no imapwire import); negative int64 and 8-bit flag acceptance excluded; sync-literal handshake belongs to C18",
+   technique="bounded-exhaustive input x configuration enumeration on the real codec with inverse-pair and independent-scanner oracles"),
+ "C05": dict(level=MC, design="DESIGN.md §4 C05",
+   text="explicit-state BFS (to closure) of the connection state machine on the real server over 12 configurations x 4 session variants x 82 events, every transition executed on the real code against an RFC 9051 reference model (permitted-state table, TLS/InsecureAuth policy, response class, capability lists, Close exactly once); plus all un-deduplicated histories of depth 2 everywhere and depth 3 (4 thorough) in default configurations",
+   note="real crypto/tls over the in-memory network; BAD/NO both accepted where the RFC leaves the class open; dedup key = reference state, soundness backed by a behaviour-function table and the un-deduplicated runs",
+   technique="explicit-state model checking over the real transition function (fresh instance + history replay) vs reference state machine"),
  "C10": dict(level=MC, design="DESIGN.md §4 C10",
    text="the real client runs under a controlled scheduler (all goroutines, locks, channels and the connection instrumented); for each of 40 transcripts and every byte offset of the server stream the connection is cut with EOF / read error / stall+read-timeout / stall+Close, and a write error is injected at every client write call; within each fault scenario every schedule up to the deviation bound is executed; the scheduler itself decides termination (all threads finished) - no clock",
    note="scripted peer; caller honours the streaming contract; STARTTLS transcripts excluded (crypto/tls is not instrumented); bound 0 quick / 1 thorough with a per-scenario execution cap that is reported",
    technique="stateless model checking of the implementation: exhaustive fault-point enumeration x deviation-bounded schedule exploration under a controlled scheduler"),
+ "C13": dict(level=MC, design="DESIGN.md §4 C13",
+   text="14 concurrency scenarios (2-3 callers, streaming/literal/IDLE/AUTHENTICATE commands, environment-chosen connection drop, concurrent Close/State/Caps/Mailbox) on the real client under a controlled scheduler with points before every lock, after every unlock and at every channel/select/spawn/connection operation; all schedules within preemption bound 1 (2 thorough) and delay bound 2 (3 thorough); verdict by the scheduler (all threads finish, no panic), wire tags pairwise distinct",
+   note="data races themselves are invisible to a cooperative scheduler (their behavioural consequences are explored); execution caps per scenario are reported with the bound completed",
+   technique="stateless model checking of the implementation: preemption-bounded and delay-bounded exhaustive schedule exploration under a controlled scheduler"),
  "C15": dict(level=MC, design="DESIGN.md §4 C15",
    text="explicit-state BFS (to closure) over AddNum/AddRange/AddSet sequences on the real set types against an explicit-membership model, every transition executed on the real code; exhaustive text enumeration against an independent ABNF recogniser",
    note="bounded endpoint alphabet {1,2,3,4,6,M-2,M-1,M,*}; probe universe {1..8,M-3..M}; Nums() only for static cardinality <= 10^4, in a resource-limited worker",
